@@ -3,7 +3,8 @@
    the parsed condition and checkAnd (mkcondchecker.go), of
    MkExprModifier.MatchMatch / MkExpr.Mod / MkExpr.HasModifier (mktypes.go) and
    of Autofix.Replace's "exactly once" rule (autofix.go), as far as they decide
-   WHICH rewrite is offered and what its from/to texts are.
+   WHICH rewrite is offered and what its from/to texts are.  This is the code
+   after the repairs 01-05 of the C14 findings (docs/C14.md).
 
    One definition per Go function, same case order.  The texts are built the
    way the Go code builds them (sprintf of the same pieces).  Next to each text
@@ -50,7 +51,8 @@ Record varinfo := mkvarinfo {
   vi_always_in_scope : bool;
   vi_defined_if_in_scope : bool;
   vi_in_file : bool;             (* MkLines.checkAllData.vars.IsDefined(varname) *)
-  vi_use_loadtime : bool         (* Union().Contains(aclpUseLoadtime) *)
+  vi_use_loadtime : bool;        (* Union().Contains(aclpUseLoadtime) *)
+  vi_nonempty_if_defined : bool
 }.
 
 (* Vartype.IsList *)
@@ -119,22 +121,15 @@ Definition from_cond (neg from_empty positive : bool) (varname : str) (prefix : 
   let atom := if from_empty then CEmpty varname ms else CLeaf (LExpr varname ms) in
   if negb (Bool.eqb neg from_empty) then atom else CNot atom.
 
-(* regex ^\d+\.?\d*$ (RE2, \d ASCII) *)
-Definition re_digits_dot_digits (p : str) : bool :=
-  let (d1, r) := span is_digit p in
-  match d1 with
-  | [] => false
-  | _ =>
-    let r1 := match r with c :: r' => if c =? 46 then r' else r | [] => r end in
-    let (_, r2) := span is_digit r1 in
-    match r2 with [] => true | _ => false end
-  end.
+(* regex ^[\d+\-.] : the pattern starts like a number *)
+Definition numeric_head (p : str) : bool :=
+  match p with c :: _ => in_set numeric_head_set c | [] => false end.
 
 (* needsQuotes in simplifyWord.replace *)
 Definition needs_quotes (pattern : str) : bool :=
   negb (forallb (in_set lit_unquoted_set) pattern)
   || match pattern with [] => true | _ => false end
-  || re_digits_dot_digits pattern.
+  || numeric_head pattern.
 
 (* ---------- simplifyWord ---------- *)
 Definition simplify_word (cx : ctx) (varname : str) (mods : list str) (from_empty neg : bool)
@@ -153,6 +148,8 @@ Definition simplify_word (cx : ctx) (varname : str) (mods : list str) (from_empt
       else if negb (forallb (in_set lit_pattern_set) pattern) then []
       else
         (* replace(positive, pattern) *)
+        if numeric_head pattern && negb from_empty then []
+        else
         let defined := is_defined (cx_seen_prefs cx) vi in
         if negb defined && negb positive then []
         else
@@ -207,7 +204,7 @@ Definition simplify_yesno (cx : ctx) (varname : str) (mods : list str) (from_emp
         | [] => ([], false)
         | _ =>
           let defined := is_defined (cx_seen_prefs cx) vi in
-          if negb defined && negb positive then ([], false)
+          if negb positive && negb (defined && from_empty && vi_nonempty_if_defined vi) then ([], false)
           else
             let add_u := negb defined && negb (has_modifier s_U mods) in
             let is_eq := Bool.eqb neg positive in
@@ -261,61 +258,6 @@ Definition simplify_match (cx : ctx) (varname : str) (mods : list str) (from_emp
       end
   end.
 
-(* ---------- SimplifyExpr ---------- *)
-Definition simplify_expr (cx : ctx) (varname : str) (mods : list str) (from_empty neg : bool)
-    : list rewrite :=
-  let (r1, done) := simplify_yesno cx varname mods from_empty neg in
-  if done then r1
-  else
-    r1 ++ simplify_match cx varname mods from_empty neg
-    ++ match is_list (cx_var cx varname) with
-       | No => simplify_word cx varname mods from_empty neg
-       | _ => []
-       end.
-
-(* ---------- MkCondChecker: the parsed condition and the walk ---------- *)
-
-Inductive mkcond :=
-| MOr (cs : list mkcond)
-| MAnd (cs : list mkcond)
-| MNot (c : mkcond)
-| MParen (c : mkcond)
-| MDefined (v : str)
-| MEmpty (v : str) (ms : list str)
-| MTerm (v : str) (ms : list str)   (* Term.Expr: ${V:mods} or "${V:mods}" *)
-| MOther.                           (* Compare, Call, literal terms *)
-
-(* checkAnd *)
-Definition check_and (cs : list mkcond) : list rewrite :=
-  match cs with
-  | [MDefined d; MNot (MEmpty v ms)] =>
-    if str_eqb d v && negb (match d with [] => true | _ => false end)
-    then [mkrw KAnd (s_defined_lp ++ d ++ s_rp_and) [] None None]
-    else []
-  | _ => []
-  end.
-
-(* Check: cond.Walk with the And / Not / Empty / Var callbacks; the "done" map
-   makes the walk skip the operand of a '!' that checkNot has handled *)
-Fixpoint walk (cx : ctx) (c : mkcond) : list rewrite :=
-  match c with
-  | MOr cs => (fix go (l : list mkcond) := match l with [] => [] | x :: r => walk cx x ++ go r end) cs
-  | MAnd cs =>
-    check_and cs
-    ++ (fix go (l : list mkcond) := match l with [] => [] | x :: r => walk cx x ++ go r end) cs
-  | MNot c1 =>
-    match c1 with
-    | MEmpty v ms => simplify_expr cx v ms true true
-    | MTerm v ms => simplify_expr cx v ms false false
-    | _ => walk cx c1
-    end
-  | MParen c1 => walk cx c1
-  | MDefined _ => []
-  | MEmpty v ms => simplify_expr cx v ms true false
-  | MTerm v ms => simplify_expr cx v ms false true
-  | MOther => []
-  end.
-
 (* ---------- autofix.go: Replace = "replace the only occurrence" ---------- *)
 
 (* strings.Count: non-overlapping occurrences *)
@@ -355,5 +297,78 @@ Fixpoint apply_rewrites (line : str) (rws : list rewrite) : str * list rewrite :
     end
   end.
 
-Definition check_line (cx : ctx) (line : str) (c : mkcond) : str * list rewrite :=
-  apply_rewrites line (walk cx c).
+(* ---------- SimplifyExpr ---------- *)
+Definition expr_text (varname : str) (mods : list str) : str :=
+  s_dollar_lbrace ++ varname ++ mods_text mods ++ [125].   (* MkExpr.String() *)
+
+Definition simplify_expr (cx : ctx) (line : str) (varname : str) (mods : list str) (from_empty neg : bool)
+    : list rewrite :=
+  (* a quoted term "${VAR:Mpattern}": the replacement would land inside the quotes *)
+  if negb from_empty && negb (Nat.eqb (count_str (34 :: expr_text varname mods ++ [34]) line) 0) then []
+  else
+  let (r1, done) := simplify_yesno cx varname mods from_empty neg in
+  if done then r1
+  else
+    r1 ++ simplify_match cx varname mods from_empty neg
+    ++ match is_list (cx_var cx varname) with
+       | No => simplify_word cx varname mods from_empty neg
+       | _ => []
+       end.
+
+(* ---------- MkCondChecker: the parsed condition and the walk ---------- *)
+
+Inductive mkcond :=
+| MOr (cs : list mkcond)
+| MAnd (cs : list mkcond)
+| MNot (c : mkcond)
+| MParen (c : mkcond)
+| MDefined (v : str)
+| MEmpty (v : str) (ms : list str)
+| MTerm (v : str) (ms : list str)   (* Term.Expr: ${V:mods} or "${V:mods}" *)
+| MOther.                           (* Compare, Call, literal terms *)
+
+(* checkAnd *)
+Definition check_and (cs : list mkcond) : list rewrite :=
+  match cs with
+  | [MDefined d; MNot (MEmpty v ms)] =>
+    if str_eqb d v && negb (match d with [] => true | _ => false end) && negb (has_modifier s_U ms)
+    then [mkrw KAnd (s_defined_lp ++ d ++ s_rp_and) [] None None]
+    else []
+  | _ => []
+  end.
+
+(* Check: cond.Walk with the And / Not / Empty / Var callbacks; the "done" map
+   makes the walk skip the operand of a '!' that checkNot has handled.  Every
+   fix is applied to the line at once (autofix mode), later callbacks see the
+   changed text: the result is the final line and the fixes that were logged. *)
+Fixpoint walk (cx : ctx) (c : mkcond) (line : str) : str * list rewrite :=
+  match c with
+  | MOr cs =>
+    (fix go (l : list mkcond) (line : str) : str * list rewrite :=
+       match l with
+       | [] => (line, [])
+       | x :: r => let (l1, a1) := walk cx x line in let (l2, a2) := go r l1 in (l2, a1 ++ a2)
+       end) cs line
+  | MAnd cs =>
+    let (l0, a0) := apply_rewrites line (check_and cs) in
+    let (l3, a3) :=
+      (fix go (l : list mkcond) (line : str) : str * list rewrite :=
+         match l with
+         | [] => (line, [])
+         | x :: r => let (l1, a1) := walk cx x line in let (l2, a2) := go r l1 in (l2, a1 ++ a2)
+         end) cs l0 in
+    (l3, a0 ++ a3)
+  | MNot c1 =>
+    match c1 with
+    | MEmpty v ms => apply_rewrites line (simplify_expr cx line v ms true true)
+    | MTerm v ms => apply_rewrites line (simplify_expr cx line v ms false false)
+    | _ => walk cx c1 line
+    end
+  | MParen c1 => walk cx c1 line
+  | MDefined _ => (line, [])
+  | MEmpty v ms => apply_rewrites line (simplify_expr cx line v ms true false)
+  | MTerm v ms => apply_rewrites line (simplify_expr cx line v ms false true)
+  | MOther => (line, [])
+  end.
+
+Definition check_line (cx : ctx) (line : str) (c : mkcond) : str * list rewrite := walk cx c line.
